@@ -10,10 +10,12 @@ import (
 	"encoding/json"
 	"fmt"
 	"os"
+	"os/signal"
 	"path/filepath"
 	"sort"
 	"strings"
 	"sync"
+	"syscall"
 
 	"github.com/pgavlin/dawn"
 	"github.com/pgavlin/dawn/diff"
@@ -46,6 +48,9 @@ type childSpec struct {
 	CrashLabel  string   `json:"crashLabel"`
 	PreferIndex bool     `json:"preferIndex"`
 	Args        []string `json:"args"` // LoadOptions.Args: the project's flags, the same for every load of a history
+	// WriteLimit: after the load, RLIMIT_FSIZE is lowered to this many bytes for the duration of the Run (0 = no fault):
+	// every write beyond it fails with EFBIG (Go ignores SIGXFSZ) — a full disk / quota / file size limit
+	WriteLimit int `json:"writeLimit,omitempty"`
 	Runs        []RunOpt `json:"runs"` // op multirun: several Runs on ONE loaded project
 }
 
@@ -58,6 +63,13 @@ type RunOpt struct {
 	Target string `json:"target,omitempty"`
 	// GC: not a Run but Project.GC() on the same loaded project
 	GC bool `json:"gc,omitempty"`
+	// Reload: not a Run but Project.Reload() (what watch mode does before it runs again with nil options)
+	Reload bool `json:"reload,omitempty"`
+	// Fail: the bodies that fail in this run for a reason that is no tracked input (a missing tool)
+	Fail []string `json:"fail,omitempty"`
+	// Write: not a Run: the user edits a source file (root-relative path, new contents) while the process lives
+	Write string `json:"write,omitempty"`
+	Text  string `json:"text,omitempty"`
 	// Repl: go through the REPL builtin run(label, always=…, dry_run=…); a keyword is passed only when its *Set flag is on
 	Repl      bool `json:"repl,omitempty"`
 	AlwaysSet bool `json:"alwaysSet,omitempty"`
@@ -86,11 +98,49 @@ type ctlFiles struct {
 	phase string
 	spec  *childSpec
 	hits  int
+	// while the process's file size limit is lowered the log lines are kept in memory
+	hm   sync.Mutex
+	hold bool
+	held [][2]string
+}
+
+// writeFault lowers RLIMIT_FSIZE to n bytes and returns the function that restores it and writes the held log lines
+func (c *ctlFiles) writeFault(n int) func() {
+	var old syscall.Rlimit
+	if err := syscall.Getrlimit(syscall.RLIMIT_FSIZE, &old); err != nil {
+		fmt.Fprintln(os.Stderr, "getrlimit:", err)
+		os.Exit(exitUsage)
+	}
+	signal.Ignore(syscall.SIGXFSZ)
+	c.hm.Lock()
+	c.hold = true
+	c.hm.Unlock()
+	if err := syscall.Setrlimit(syscall.RLIMIT_FSIZE, &syscall.Rlimit{Cur: uint64(n), Max: old.Max}); err != nil {
+		fmt.Fprintln(os.Stderr, "setrlimit:", err)
+		os.Exit(exitUsage)
+	}
+	return func() {
+		syscall.Setrlimit(syscall.RLIMIT_FSIZE, &old)
+		c.hm.Lock()
+		held := c.held
+		c.hold, c.held = false, nil
+		c.hm.Unlock()
+		for _, fl := range held {
+			c.appendLine(fl[0], fl[1])
+		}
+	}
 }
 
 var ctl *ctlFiles
 
 func (c *ctlFiles) appendLine(file, line string) {
+	c.hm.Lock()
+	if c.hold {
+		c.held = append(c.held, [2]string{file, line})
+		c.hm.Unlock()
+		return
+	}
+	c.hm.Unlock()
 	f, err := os.OpenFile(filepath.Join(c.dir, file), os.O_APPEND|os.O_CREATE|os.O_WRONLY, 0o644)
 	if err != nil {
 		fmt.Fprintln(os.Stderr, "ctl:", err)
@@ -421,6 +471,17 @@ func childMain(specPath string) int {
 			succeeded = nil
 			succM.Unlock()
 			ctl.phase = "run"
+			ctl.spec.Fail = ro.Fail
+			if ro.Write != "" {
+				err := os.WriteFile(fsPath(spec.Root, ro.Write), []byte(ro.Text), 0o644)
+				ctl.appendLine("events.log", "RR\t"+errStr(err))
+				continue
+			}
+			if ro.Reload {
+				err := proj.Reload()
+				ctl.appendLine("events.log", "RR\t"+errStr(err))
+				continue
+			}
 			if ro.GC {
 				err := proj.GC()
 				ctl.appendLine("events.log", "RR\t"+errStr(err))
@@ -492,7 +553,12 @@ func childMain(specPath string) int {
 			ctl.appendLine("state.log", "tree-after-load\t"+hashDir(spec.Root, ".dawn"))
 		}
 		ctl.phase = "run"
+		restore := func() {}
+		if spec.WriteLimit > 0 {
+			restore = ctl.writeFault(spec.WriteLimit)
+		}
 		err = proj.Run(l, &dawn.RunOptions{Always: spec.Always, DryRun: spec.Dry})
+		restore()
 		ctl.phase = "done"
 		if spec.Dry {
 			ctl.appendLine("state.log", "work-after-run\t"+hashDir(work, ""))
